@@ -61,8 +61,8 @@ def phases(quick):
             ("2tags/full", 2, [full] * 3, g.tags("outer", (RAW_BODY_A,)) + ml_tags("few"),
              ("default",), (False,), NL_FORMS),
             ("3tags/small", 3, [g.CHUNKS_SMALL] * 4,
-             g.tags("none") + [("raw", ol, "", RAW_BODY_A, "", cr) for ol in ("", "-") for cr in ("", "-")]
-             + [(k, m, m) for k in ML_KINDS for m in ("", "-")],
+             g.tags("none") + [("raw", m, "", RAW_BODY_A, "", m) for m in ("", "-")]
+             + [(k, "", "") for k in ML_KINDS],
              ("default",), (False,), ("\n", "\r\n")),
         ]
     return ph
